@@ -55,3 +55,7 @@ Fixpoint starts_with (p s : str) : bool :=
 
 Fixpoint mem_str (x : str) (l : list str) : bool :=
   match l with [] => false | y :: r => str_eqb x y || mem_str x r end.
+
+Fixpoint assoc_key {A} (k : str) (l : list (str * A)) : option A :=
+  match l with [] => None | (k', x) :: r => if str_eqb k k' then Some x else assoc_key k r end.
+
